@@ -44,6 +44,10 @@ class World:
         self.got = []
         self.written = [0, 0, 0]
         self.app_closed = False           # S's application asked for / was told about the close
+        self.chan = {}
+        self.hook = None                  # application call to make from S's next startWriting() callback
+        self.hook_done = []
+        self.sw = False
         world = self
 
         class Inner:
@@ -69,6 +73,15 @@ class World:
 
             def extReceived(self, dataType, data):
                 world.got.append([dataType, list(data)])
+
+            def startWriting(self):
+                # push-producer pattern: the application reacts to startWriting() by calling the channel again
+                if self is world.chan.get(1):
+                    world.sw = True
+                    h, world.hook = world.hook, None
+                    if h is not None:
+                        world.hook_done = list(h)
+                        world._app_call(h)
 
             def closeReceived(self):
                 if self is world.chan[1]:
@@ -137,11 +150,29 @@ class World:
         sent, exc = self._call(1, self.chan[1].loseConnection)
         self.ev.append({"e": "close", "sent": sent, "exc": exc})
 
-    def sdeliver(self):
-        self.ops.append(["sdeliver"])
+    def _app_call(self, h):
+        """write / loseConnection issued re-entrantly (from a channel callback)."""
+        ch = self.chan[1]
+        if h[0] == "write":
+            s_, n = h[1], h[2]
+            data = bytes(((self.written[s_] + i) % 256) for i in range(1, n + 1))
+            self.written[s_] += n
+            ch.write(data) if s_ == 0 else ch.writeExtended(s_, data)
+        else:
+            self.app_closed = True
+            ch.loseConnection()
+
+    def sdeliver(self, hook=None):
+        """hook = ("write", s, n) or ("close", 0, 0): what S's application does if the channel calls its
+        startWriting() during this delivery."""
+        if hook is not None and (self.app_closed and hook[0] == "write" or hook[0] == "write" and self.written[hook[1]] + hook[2] > 250):
+            hook = None
+        self.ops.append(["sdeliver"] + ([list(hook)] if hook else []))
         pkt = self.q[1].pop(0)
+        self.hook, self.hook_done, self.sw = hook, [], False
         sent, exc = self._call(1, lambda: self.conn[1].packetReceived(*pkt))
-        self.ev.append({"e": "sdeliver", "m": self._abs(pkt), "sent": sent, "exc": exc})
+        self.hook = None
+        self.ev.append({"e": "sdeliver", "m": self._abs(pkt), "hook": self.hook_done, "sw": self.sw, "sent": sent, "exc": exc})
 
     def rdeliver(self):
         self.ops.append(["rdeliver"])
@@ -164,7 +195,7 @@ class World:
             self.close()
         elif k == "sdeliver":
             if self.q[1]:
-                self.sdeliver()
+                self.sdeliver(tuple(op[1]) if len(op) > 1 else None)
         elif k == "rdeliver":
             if self.q[2]:
                 self.rdeliver()
@@ -223,6 +254,11 @@ def explore(cfg, maxops, sizes, adjs, max_traces=None):
                 nxt += [(("radjust", n), 1) for n in adjs]
             if w.q[1]:
                 nxt.append((("sdeliver",), 0))
+                if napp < maxops and not w.app_closed:
+                    w2 = run_ops(cfg, ops + [("sdeliver",)])
+                    if w2.ev[-1]["sw"]:      # the channel called startWriting(): every application reaction to it
+                        nxt += [(("sdeliver", ("write", s, n)), 1) for s in (0, 1, 2) for n in sizes]
+                        nxt.append((("sdeliver", ("close", 0, 0)), 1))
             if w.q[2]:
                 nxt.append((("rdeliver",), 0))
         if not nxt:
@@ -243,7 +279,13 @@ def random_history(rng, cfg, nops):
         r = rng.random()
         if (w.q[1] or w.q[2]) and r < 0.5:
             sides = [i for i in (1, 2) if w.q[i]]
-            w.sdeliver() if rng.choice(sides) == 1 else w.rdeliver()
+            if rng.choice(sides) == 1:
+                hk = None
+                if rng.random() < 0.4 and not w.app_closed:
+                    hk = ("close", 0, 0) if rng.random() < 0.1 else ("write", rng.choice((0, 0, 1, 2)), rng.choice((1, 2, 3, rng.randint(1, big))))
+                w.sdeliver(hk)
+            else:
+                w.rdeliver()
         elif r < 0.88 and not w.app_closed:
             s = rng.choice((0, 0, 1, 1, 2))
             n = rng.choice((1, 1, 2, 3, rng.randint(1, big), rng.randint(1, 3 * big)))
@@ -411,6 +453,8 @@ def cex_ops(r):
                 ops.append(["write", ev["s"], ev["n"]])
             elif ev["e"] == "radjust":
                 ops.append(["radjust", ev["n"]])
+            elif ev["e"] == "sdeliver" and ev["hook"]:
+                ops.append(["sdeliver", ev["hook"]])
             else:
                 ops.append([ev["e"]])
     return cfg, ops, pred
@@ -480,7 +524,8 @@ def run(ctx):
     behs = behs[:ctx.pick(150, 3000)]
     drift = 0
     for b in behs:
-        ops = [["write", h["s"], h["n"]] if h["e"] == "write" else ["radjust", h["n"]] if h["e"] == "radjust" else [h["e"]] for h in b["hist"]]
+        ops = [["write", h["s"], h["n"]] if h["e"] == "write" else ["radjust", h["n"]] if h["e"] == "radjust"
+               else ["sdeliver", h["hook"]] if h["e"] == "sdeliver" and h["hook"] else [h["e"]] for h in b["hist"]]
         w = run_ops(b["cfg"], ops)
         if [dict(e) for e in w.ev] != b["hist"]:
             drift += 1
